@@ -33,3 +33,19 @@ Example C14_decode_ex : let d := [[FSeg 0 0 1 1; FSeg 5 1 1 2]; [FEmpty]; [FSeg 
   fdoc_ok d 0 1 /\ render_fdoc d = [65; 44; 75; 67; 59; 59; 69; 65; 69; 44; 44; 79; 68]
   /\ fdoc_entries d = [mkSO 1 0 0; mkSO 1 5 1; mkSO 3 2 1; mkSO 3 9 0].
 Proof. cbv zeta. split; [cbn; repeat split; try lia; intros; lia|]. split; vm_compute; reflexivity. Qed.
+
+(* the answers are unchanged by serialising and decoding the map again: after the round trip (C01_index_hermes) the Hermes
+   map carries identical function maps, and scope resolution reads nothing else of the map; the tokens themselves come back
+   with the same source index and original position (C01_regular), so every token resolves to the same function *)
+From SM Require Import Proofs.RoundtripProofs Proofs.DmapRoundtrip.
+Theorem C14_stable : forall h, wf_dmap 1 (DHermes h) ->
+  exists h', decode_common 1 (dm_as_raw 1 (DHermes h)) = Ok (DHermes h')
+    /\ sm_obs_eq (h_sm h) (h_sm h')
+    /\ forall t off, get_scope_for_token h' t off = get_scope_for_token h t off.
+Proof.
+  intros h Hwf. destruct (C01_dmap 1 (DHermes h) Hwf) as (d' & Hd & Hobs).
+  destruct d' as [m'|f' s'|h']; cbn [obs_eq] in Hobs; try contradiction.
+  exists h'. split; [exact Hd|]. destruct Hobs as (Hsm & _ & Hfm). split; [exact Hsm|].
+  intros t off. unfold get_scope_for_token. rewrite Hfm. reflexivity.
+Qed.
+Print Assumptions C14_stable.
